@@ -65,7 +65,7 @@ let () = register "c13" (fun args -> match args with
       let buf = Buffer.create 256 in
       let rec loop st it ncalls logged =
         if ncalls > List.length pat + 2 then (Buffer.add_string buf "runaway | "; None) else
-        let ((res, st'), it') = rc_call pats rules imports f sc blocks fsz st it in
+        let ((res, st'), it') = rc_call true pats rules imports f sc blocks fsz st it in
         let full = List.rev it'.ri_log in
         let fresh = List.filteri (fun i _ -> i >= logged) full in
         (match res with
@@ -76,7 +76,7 @@ let () = register "c13" (fun args -> match args with
              Buffer.add_string buf (Printf.sprintf "call msgs=%s rc=%s log=%s m=%s | " (pr_msgs tr) (string_of_z rc) (pr_log fresh) (pr_matches m));
              Some (((tr, rc), m), ncalls + 1, st')) in
       let r = loop (rs_init m0) (rs_iter_init pat) 0 0 in
-      let one = rc_run pats rules imports f sc blocks fsz pat in
+      let one = rc_run true pats rules imports f sc blocks fsz pat in
       let same = (match r, one with
         | Some (x, c, st), Some ((((y, c'), st'), _)) -> x = y && c = pr_int_of_nat c' && st = st'
         | None, None -> true
@@ -85,4 +85,34 @@ let () = register "c13" (fun args -> match args with
       Buffer.add_string buf (Printf.sprintf "calls=%d conforming=%b driver_agrees=%b clean=%b"
         (match r with Some (_, c, _) -> c | None -> -1) (rs_conforming (pr_nat_of_int (List.length blocks)) pat) same clean);
       Buffer.contents buf
+  | _ -> "usage")
+
+(* c13abandon <variant current|pinned> <pats> <rules> <fsz|-> <blocks> <pattern> <buffer hex>
+   one call with the pattern; if it returns not-ready the caller gives up and scans <buffer> through the same
+   scanner with a new iterator; prints that scan, and the same scan on a new scanner *)
+let () = register "c13abandon" (fun args -> match args with
+  | [variant; pats; rules; fsz; blocks; pattern; bufhex] ->
+      let d = variant <> "pinned" in
+      let pats = List.map unhex (pr_split ',' pats) in
+      let rules = List.map (fun e -> match String.split_on_char ':' e with
+        | [ns; g; p; a] -> { rc_ns = pr_nat_of_int (int_of_string ns); rc_global = pr_bool g; rc_private = pr_bool p;
+                             rc_atom_of = pr_atom a }
+        | _ -> failwith "rule") (pr_split ',' rules) in
+      let blocks = List.map (fun e -> match String.split_on_char ':' e with
+        | [b; h] -> let dd = unhex h in { rb_base = n_of_int (int_of_string b); rb_size = n_of_int (List.length dd); rb_data = Some dd }
+        | _ -> failwith "block") (pr_split ',' blocks) in
+      let fsz = if fsz = "-" then None else Some (n_of_int (int_of_string fsz)) in
+      let pat = if pattern = "-" then [] else List.init (String.length pattern) (fun i -> pattern.[i] = '1') in
+      let sc = pr_script "-" and f = z_of_int 0 in
+      let m0 = List.map (fun _ -> []) pats in
+      let buf = unhex bufhex in
+      let one st =
+        let b = { rb_base = n_of_int 0; rb_size = n_of_int (List.length buf); rb_data = Some buf } in
+        match rc_call d pats rules [] f sc [b] (Some (n_of_int (List.length buf))) st (rs_iter_init []) with
+        | ((RsDone ((tr, rc), m), _), _) -> Printf.sprintf "msgs=%s rc=%s m=%s" (pr_msgs tr) (string_of_z rc) (pr_matches m)
+        | _ -> "notdone" in
+      let ((res, st'), _) = rc_call d pats rules [] f sc blocks fsz (rs_init m0) (rs_iter_init pat) in
+      (match res with
+       | RsNotReady -> Printf.sprintf "abandoned=true notebook=%b reused %s | fresh %s" st'.rs_notebook (one st') (one (rs_init m0))
+       | _ -> "abandoned=false")
   | _ -> "usage")
